@@ -21,4 +21,21 @@ chk("C04", "gbv/streamfsm+lifecycle",
     "sync/atomic.Value semantics; handler failures are signalled by the returned error.",
     "DESIGN.md 5/C04")
 
+chk("C02", "gbv/streamfsm+dispatch",
+    "arm-label dataflow over the dispatch loop's SSA + dominance/must-pass-through of effects",
+    "Decides the effect structure behind the grouping for every event kind and every path: one handler call site (in the commit closure), commit called only "
+    "from XID/COMMIT/ROLLBACK arms or from change arms under the 'no BEGIN open' guard, per-arm table of which arms may touch buffer/flag/format/table cache, "
+    "required effects on every path of each arm (ROLLBACK clears before committing, change arms append exactly one event), resets only after acceptance, "
+    "case-insensitive and total statement classification. It does not decide SQL tokenisation of unusual text nor run any event sequence.",
+    "arm names are derived from the exported Statement*/BinlogEvent API; a new arm that commits needs a table entry.",
+    "DESIGN.md 5/C02")
+
+chk("C03", "gbv/streamfsm",
+    "field-wise value provenance (store-to-load forwarding) in the commit closure, rotate arm and offset conversion chains",
+    "Decides how the labels are computed and that they chain: now = cell at closure entry, next = {same file, NextPosition() of the commit event, no arithmetic}, "
+    "constructor parameter order, cell == next on the accepted exit, commit always receives the stripped current event, rotate stores Rotate()'s results, and every "
+    "conversion on the offset chain is one of uint32->int64 / uint64->int64 / int64->uint32. It does not decide what a master serves when resumed at a label.",
+    "with C02-R3/C04-R3 (only commit and rotate write the cell).",
+    "DESIGN.md 5/C03")
+
 ENGINES[0]["serves_properties"] = sorted(CHECKS.keys())
